@@ -88,3 +88,24 @@ def _d1(sc, viol):
         return False
     over, num = pred
     return bool(over) and num == d.get('n') and sorted(over) == sorted(d.get('symbols', []))
+
+
+# ----------------------------------------------------------------------------------------
+# D6: svg_data_uri re-quotes attributes ("..." -> '...') before percent-encoding (intended
+# upstream: shorter URIs). The decoded URI is therefore never byte-identical to the saved SVG.
+_D6_RX = None
+
+
+def d6_quote_substitution(reference):
+    """/verif's own statement of exactly that substitution, applied to the reference document."""
+    import re
+    global _D6_RX
+    if _D6_RX is None:
+        _D6_RX = re.compile(rb'(=)"([^"]+)"')
+    return _D6_RX.sub(rb"\1'\2'", reference)
+
+
+@discriminator('d6_svg_data_uri_quotes')
+def _d6(sc, viol):
+    d = viol['detail']
+    return d.get('route') == 'svg_uri' and d.get('equal_after_d6_substitution') is True
